@@ -61,6 +61,9 @@ Ret == /\ IsEv("ret") /\ pend[Ev.g] # None /\ pend[Ev.g].applied /\ pend[Ev.g].o
        /\ pend' = [pend EXCEPT ![Ev.g] = None]
        /\ UNCHANGED pvars
 
+\* the environment recycles a block that a Put handed back (as the reader does), between two operations
+Ow == /\ IsEv("overwrite") /\ Overwrite(Ev.id, Ev.base, Ev.used) /\ UNCHANGED pend
+
 Final == /\ IsEv("final") /\ \A g \in G : pend[g] = None
          /\ Ev.len = Len_ /\ Ev.cap = cap /\ Len_ <= cap
          /\ \A i \in DOMAIN Ev.peek :
@@ -71,7 +74,7 @@ Final == /\ IsEv("final") /\ \A g \in G : pend[g] = None
 Done == /\ l = Len(Trace) + 1
         /\ PrintT("VERIF-DONE " \o ToJson([lines |-> Len(Trace), rej |-> <<>>]))
         /\ l' = l + 1 /\ UNCHANGED <<pvars, pend>>
-Next == Reset \/ Call \/ Ret \/ Final \/ Done \/ \E g \in G : Lin(g)
+Next == Reset \/ Call \/ Ret \/ Ow \/ Final \/ Done \/ \E g \in G : Lin(g)
 Spec == Init /\ [][Next]_vars
 
 \* high-water mark of consumed lines (needs -workers 1)
